@@ -390,7 +390,10 @@ func (p *ReverseProxy) clusterInvoke(srv *BfeServer, cluster *bfe_cluster.BfeClu
 			allowRetry = checkAllowRetry(cluster.RetryLevel(), outreq)
 
 			// if error is caused by backend server
-			rerr := err.(bfe_http.WriteRequestError)
+			// Note: err is bfe_http.WriteRequestError or bfe_fcgi.WriteRequestError
+			rerr := err.(interface {
+				CheckTargetError(addr net.Addr) bool
+			})
 			if !rerr.CheckTargetError(request.RemoteAddr) {
 				backend.OnFail(cluster.Name)
 			}
